@@ -1,6 +1,6 @@
 (* C02 - the property's domain, the case type of the loopback tie and the boolean checkers
    evaluated on what the REAL Client <-> Server pair did. *)
-From VT Require Export Codec.Packet Codec.SpecCodec Check.C01Check Codec.MsgPack E2E.Pipe.
+From VT Require Export Codec.Packet Codec.SpecCodec Check.C01Check Codec.MsgPack E2E.Pipe E2E.AckTable.
 Open Scope N_scope.
 
 (* ---- the quantifier of C02 ---- *)
@@ -81,6 +81,19 @@ Fixpoint jstable_loads (tbl : jstable) (s : str) : Res pv :=
   | (k, r) :: rest => if str_eqb k s then r else jstable_loads rest s
   end.
 
+(* ---- the observed timeline of one sender (E2E/AckTable.v) ---- *)
+Inductive aobs :=
+| OReg (key : str) (w : who) (id : Z)
+    (* _generate_ack_id was called for the callback w and returned id *)
+| OAck (w : option who) (key : str) (id : option Z) (args : list pv)
+       (fired : list (who * option (list pv)))
+    (* the ACK with which the peer replied to the EVENT of registration w (FIFO: the n-th ACK a
+       sender receives is the n-th ACK its peer sent) reached _handle_ack as (key, id, args);
+       `fired` = the callbacks seen invoked while it was handled, with their arguments (the
+       closure of a call() is seen through its event only: no arguments) *)
+| OEnd (op : N) (res : Res pv).
+    (* the call() of operation op returned / raised *)
+
 (* ---- cases ---- *)
 Inductive c02case :=
 | Stream (ser : serializer) (dir : direction)
@@ -90,13 +103,94 @@ Inductive c02case :=
          (obs : list rx_event)      (* what the peer's handlers / callbacks received, in order *)
 | CallRes (r : pv) (obs : pv)       (* handler returned r; call() on the other side returned obs *)
 | CbArgs (r : pv) (obs : list pv)   (* handler returned r; the emitter's callback was invoked with obs *)
-| Unmodified (orig after : pv).     (* a payload object before its first send / after all sends of it:
+| Unmodified (orig after : pv)      (* a payload object before its first send / after all sends of it:
                                        emit (and the ACK path) must not modify the application's value *)
+| Acks (rets : list (N * pv))       (* operation -> what the handler invocation for its EVENT returned *)
+       (evs : list aobs).           (* everything that happened at ONE sender's registry, in order:
+                                       registrations, ACKs arriving (in time or late), call() endings *)
 
 Definition frames_eqb (a b : Res (list pv)) : bool := res_eqb (list_eqb pv_eqb) a b.
 Definition rxres_eqb (a b : Res (option rpacket * list rx_event)) : bool :=
   res_eqb (fun x y => match fst x, fst y with None, None => true | Some _, Some _ => true | _, _ => false end
                       && list_eqb rx_event_eqb (snd x) (snd y)) a b.
+
+(* ---- acknowledgement timelines ---- *)
+Fixpoint all2 {A B} (f : A -> B -> bool) (la : list A) (lb : list B) : bool :=
+  match la, lb with
+  | [], [] => true
+  | a :: ra, b :: rb => f a b && all2 f ra rb
+  | _, _ => false
+  end.
+Definition fired_eqb (obs : list (who * option (list pv))) (f : option (who * list pv)) : bool :=
+  match obs, f with
+  | [], None => true
+  | [(w, a)], Some (w', a') =>
+      who_eqb w w' && match a with Some x => list_eqb pv_eqb x a' | None => true end
+  | _, _ => false
+  end.
+(* what the APPLICATION sees of an ACK: the callbacks it passed to emit().  The closure of a
+   call() is internal: whether and with what it was invoked shows in how that call() ends *)
+Definition user_fired (l : list (who * option (list pv))) : list (who * option (list pv)) :=
+  filter (fun x => match fst x with WUser _ => true | WCall _ => false end) l.
+Definition user_out (f : option (who * list pv)) : option (who * list pv) :=
+  match f with Some (WCall _, _) => None | x => x end.
+(* one observed event against what a machine of AckTable.v says.  internals = true (bit 1, the real
+   registry): also the ids drawn and the closures of call()s; false (bit 2, the ideal registry):
+   only what the application sees *)
+Definition obs_agree (internals : bool) (o : aobs) (out : aout) : bool :=
+  match o, out with
+  | OReg _ _ id, OutId i => if internals then Z.eqb id (Z.of_N i) else true
+  | OAck _ _ _ _ fired, OutFired f =>
+      if internals then fired_eqb fired f else fired_eqb (user_fired fired) (user_out f)
+  | OEnd _ res, OutRes r => res_eqb pv_eqb res r
+  | _, _ => false
+  end.
+(* the timeline as the real registry sees it: ACK packets with the (key, id) they carry *)
+Definition obs_wire (o : aobs) : aev :=
+  match o with
+  | OReg key w _ => AReg key w
+  | OAck _ key id args _ => AAckWire key id args
+  | OEnd op _ => AEnd op
+  end.
+(* the timeline as the ideal registry sees it, from the SENT values only: the ACK replying to
+   registration w carries `pack r` for the r its own handler invocation returned *)
+Definition ret_args (rets : list (N * pv)) (w : who) : list pv :=
+  match dget N.eqb rets (who_op w) with Some r => pack r | None => [PObj 0] end.
+Definition obs_ideal (rets : list (N * pv)) (o : aobs) : aev :=
+  match o with
+  | OReg key w _ => AReg key w
+  | OAck (Some w) _ _ _ _ => AAckOf w (ret_args rets w)
+  | OAck None key id args _ => AAckWire key id args      (* replies to nothing: must invoke nothing *)
+  | OEnd op _ => AEnd op
+  end.
+Definition ack_args_ok (rets : list (N * pv)) (o : aobs) : bool :=
+  match o with
+  | OAck (Some w) _ _ args _ => list_eqb pv_eqb args (ret_args rets w)
+  | _ => true
+  end.
+(* every registration is followed by the ACK that replies to it (the scenario ends with
+   everything delivered): with the ideal registry this makes "at most once" "exactly once" *)
+Definition acked (evs : list aobs) (w : who) : bool :=
+  existsb (fun o => match o with OAck (Some w') _ _ _ _ => who_eqb w w' | _ => false end) evs.
+Fixpoint regs_acked (evs : list aobs) : bool :=
+  match evs with
+  | [] => true
+  | OReg _ w _ :: r => acked r w && regs_acked r
+  | _ :: r => regs_acked r
+  end.
+(* an operation registers one callback *)
+Fixpoint regs_distinct (evs : list aobs) : bool :=
+  match evs with
+  | [] => true
+  | OReg _ w _ :: r =>
+      negb (existsb (fun o => match o with OReg _ w' _ => who_eqb w w' | _ => false end) r) && regs_distinct r
+  | _ :: r => regs_distinct r
+  end.
+Definition acks_corr (evs : list aobs) : bool :=
+  all2 (obs_agree true) evs (a_run a_init (map obs_wire evs)).
+Definition acks_prop (rets : list (N * pv)) (evs : list aobs) : bool :=
+  all2 (obs_agree false) evs (i_run i_init (map (obs_ideal rets) evs)) &&
+  forallb (ack_args_ok rets) evs && regs_acked evs && regs_distinct evs.
 
 (* bit 1: the model, run on the sent values, produces the frames seen on the wire (msgpack:
    the blob whose decoded dictionary equals the model's _to_dict), and the model's reassembly
@@ -109,6 +203,7 @@ Definition c02_corr (c : c02case) : bool :=
   | CallRes r obs => true
   | CbArgs r obs => true
   | Unmodified orig after => true
+  | Acks rets evs => acks_corr evs
   end.
 (* bit 2: the property, from the SENT values only *)
 Definition c02_prop (c : c02case) : bool :=
@@ -117,6 +212,7 @@ Definition c02_prop (c : c02case) : bool :=
   | CallRes r obs => pv_eqb obs (call_result (pack r))
   | CbArgs r obs => list_eqb pv_eqb obs (pack r)
   | Unmodified orig after => pv_eqb after orig
+  | Acks rets evs => acks_prop rets evs
   end.
 
 Definition c02_eval (c : c02case) : nat :=
@@ -132,6 +228,13 @@ Definition c02_explain (c : c02case) :=
   | CallRes r obs => (Ok [], Ok (None, []), [AckCall [] None [call_result (pack r)]])
   | CbArgs r obs => (Ok [], Ok (None, []), [AckCall [] None (pack r)])
   | Unmodified orig after => (Ok [], Ok (None, []), [AckCall [] None [orig]])
+  | Acks rets evs => (Ok [], Ok (None, []), [])
+  end.
+(* shown by --replay for a timeline: what the real registry and the ideal one say, event by event *)
+Definition c02_explain_acks (c : c02case) :=
+  match c with
+  | Acks rets evs => (a_run a_init (map obs_wire evs), i_run i_init (map (obs_ideal rets) evs))
+  | _ => ([], [])
   end.
 
 (* ---- soundness of the property checker ---- *)
@@ -151,17 +254,68 @@ Proof.
     + intro H. inversion H; subst. repeat split. destruct i2; cbn; [apply Z.eqb_refl|reflexivity].
 Qed.
 
+(* what an observed event shows of the ideal registry's verdict *)
+Definition obs_sees (o : aobs) (out : aout) : Prop :=
+  match o, out with
+  | OReg _ _ _, OutId _ => True
+  | OAck _ _ _ _ fired, OutFired f =>
+      match user_out f with
+      | None => user_fired fired = []
+      | Some (w, args) => exists a, user_fired fired = [(w, a)] /\ (a = None \/ a = Some args)
+      end
+  | OEnd _ res, OutRes r => res = r
+  | _, _ => False
+  end.
+Lemma res_pv_eqb_eq (a b : Res pv) : res_eqb pv_eqb a b = true -> a = b.
+Proof.
+  destruct a as [x|x], b as [y|y]; cbn [res_eqb]; try discriminate; intro H.
+  - apply pv_eqb_eq in H. congruence.
+  - apply exn_eqb_eq in H. congruence.
+Qed.
+Lemma who_eqb_true a b : who_eqb a b = true -> a = b.
+Proof.
+  destruct a, b; cbn [who_eqb]; try discriminate; intro H; apply N.eqb_eq in H; congruence.
+Qed.
+Lemma obs_agree_sees o out : obs_agree false o out = true -> obs_sees o out.
+Proof.
+  destruct o as [key w id|w key id args fired|op res], out as [i|f|r]; cbn [obs_agree obs_sees];
+    try discriminate; try (intros; exact I).
+  - destruct (user_out f) as [[w' a']|]; destruct (user_fired fired) as [|[w0 a0] [|x r]];
+      cbn [fired_eqb]; try discriminate; try reflexivity.
+    intro H. apply andb_true_iff in H. destruct H as [H1 H2]. apply who_eqb_true in H1. subst w0.
+    exists a0. split; [reflexivity|]. destruct a0 as [x|]; [|left; reflexivity].
+    right. apply (list_eqb_eq _ pv_eqb_eq) in H2. congruence.
+  - apply res_pv_eqb_eq.
+Qed.
+Lemma all2_Forall2 {A B} (f : A -> B -> bool) (P : A -> B -> Prop) :
+  (forall a b, f a b = true -> P a b) -> forall la lb, all2 f la lb = true -> Forall2 P la lb.
+Proof.
+  intros Hf la. induction la as [|a ra IH]; intros [|b rb]; cbn [all2]; try discriminate; intro H.
+  - constructor.
+  - apply andb_true_iff in H. destruct H as [H1 H2]. constructor; [apply Hf; exact H1|apply IH; exact H2].
+Qed.
+
 Theorem c02_prop_sound c : c02_prop c = true ->
   match c with
   | Stream ser dir ms jt mt wire obs => obs = map msg_call ms
   | CallRes r obs => obs = call_result (pack r)
   | CbArgs r obs => obs = pack r
   | Unmodified orig after => after = orig
+  | Acks rets evs =>
+      (* event by event the sender saw what the ideal registry says, computed from the handlers'
+         return values: which callback an ACK invoked and with what, how each call() ended *)
+      Forall2 obs_sees evs (i_run i_init (map (obs_ideal rets) evs)) /\
+      Forall (fun o => match o with OAck (Some w) _ _ args _ => args = ret_args rets w | _ => True end) evs
   end.
 Proof.
-  destruct c as [ser dir ms jt mt wire obs|r obs|r obs|orig after]; cbn [c02_prop]; intro H.
+  destruct c as [ser dir ms jt mt wire obs|r obs|r obs|orig after|rets evs]; cbn [c02_prop]; intro H.
   - apply (list_eqb_eq _ rx_event_eqb_eq). exact H.
   - apply pv_eqb_eq. exact H.
   - apply (list_eqb_eq _ pv_eqb_eq). exact H.
   - apply pv_eqb_eq. exact H.
+  - unfold acks_prop in H. rewrite !andb_true_iff in H. destruct H as [[[H1 H2] _] _]. split.
+    + exact (all2_Forall2 _ _ obs_agree_sees _ _ H1).
+    + apply Forall_forall. intros o Hin. rewrite forallb_forall in H2. specialize (H2 o Hin).
+      destruct o as [key w id|[w|] key id args fired|op res]; try exact I.
+      cbn [ack_args_ok] in H2. apply (list_eqb_eq _ pv_eqb_eq) in H2. exact H2.
 Qed.
